@@ -12,6 +12,7 @@
 import copy
 import json
 import random
+import re
 import time
 from concurrent.futures import ThreadPoolExecutor
 
@@ -167,7 +168,7 @@ def anchors():
 
 
 BUDGET_S = {   # estimated seconds of one TLC worker per type: (records without a long chain, records with one)
-    "quick": {"rsa": (90, 8), "dsa": (35, 20), "elgamal": (20, 0), "ws": (85, 25), "ed": (16, 60), "mt": (16, 60)},
+    "quick": {"rsa": (85, 6), "dsa": (30, 14), "elgamal": (16, 0), "ws": (70, 18), "ed": (14, 45), "mt": (14, 45)},
     "thorough": {"rsa": (1000, 250), "dsa": (300, 900), "elgamal": (250, 0), "ws": (1200, 450), "ed": (220, 1000), "mt": (260, 1000)},
 }
 SINGLE_SHARE = 0.7      # quick tier: the cases with at most one corruption may use this share of the budget of the records without a long chain
@@ -259,7 +260,7 @@ def plan_generate(ctx, rnd, cid0):
               {"what": "dsa-domain", "bits": 1024, "kid": "d1024", "corr": [rnd.choice(["g=1", "g=p-1", "g+p"])]},
               {"what": "dsa-domain", "bits": 1024, "kid": "d1024", "corr": [rnd.choice(["q:=other prime", "q:=2q", "p+2q"])]}]
         g += [{"what": "elgamal", "bits": rnd.choice([161, 168, 176, 184, 192])}]
-        curves = [rnd.choice(["P-192", "P-224"]), "P-256", rnd.choice(["P-384", "P-521"]), "Ed25519", "Curve25519"]
+        curves = [rnd.choice(["P-192", "P-224"]), "P-256", "P-521" if ctx.seed % 4 == 1 else "P-384", "Ed25519", "Curve25519"]
         if ctx.seed % 3 == 0:                                   # the two long chains (30 s / 20 s of TLC) in one run out of three
             curves.append(["Ed448", "Curve448"][(ctx.seed // 3) % 2])
         g += [{"what": "ecc", "curve": c} for c in curves]
@@ -308,7 +309,6 @@ def family_of(t):
 
 
 def vkey(t, clause):
-    import re
     cls = clause
     for pat, rep in CLASSES:
         m = re.fullmatch(".*?(" + pat + ")", clause)
